@@ -5,6 +5,7 @@
 From Coq Require Import String Lia.
 From PlzV Require Import Base.Harness Gen.AspTables Model.C16_Syntax Model.C16_Ops.
 Local Open Scope Z_scope.
+Local Open Scope list_scope.
 
 (* ---- facts about the regenerated tables ---- *)
 Lemma alazy_spec : forall k, alazy k = match k with KB And | KB Or => true | _ => false end.
@@ -95,12 +96,14 @@ Section FlatIsTree.
              rewrite flat_cons2, Hp. rewrite <- IH. cbn [teval ikey]. rewrite alazy_spec.
              destruct o; cbn [key_is_and binop_eqb andb negb];
                try (rewrite rbind_assoc; apply rbind_ext; intros [r0 st2]; reflexivity).
-             ++ (* And *) destruct (truthy a); cbn [Bool.eqb negb]; [|reflexivity].
+             ++ (* And *) destruct (truthy a) eqn:Ht; cbn [Bool.eqb negb]; [|reflexivity].
                 apply rbind_ext. intros [r0 st2].
-                etransitivity; [|apply rbind_ret_pair]. apply rbind_ext. intros [n st3]. reflexivity.
-             ++ (* Or *) destruct (truthy a); cbn [Bool.eqb negb]; [reflexivity|].
+                etransitivity; [|apply rbind_ret_pair]. apply rbind_ext. intros [n st3].
+                unfold interp_op_v. rewrite Ht. reflexivity.
+             ++ (* Or *) destruct (truthy a) eqn:Ht; cbn [Bool.eqb negb]; [reflexivity|].
                 apply rbind_ext. intros [r0 st2].
-                etransitivity; [|apply rbind_ret_pair]. apply rbind_ext. intros [n st3]. reflexivity.
+                etransitivity; [|apply rbind_ret_pair]. apply rbind_ext. intros [n st3].
+                unfold interp_op_v. rewrite Ht. reflexivity.
           -- cbn [teval]. rewrite <- IH, rbind_assoc. apply rbind_ext. intros [v st1].
              rewrite flat_cons2, Hp. cbn [ikey]. rewrite alazy_spec. reflexivity.
   Qed.
@@ -117,7 +120,7 @@ Section Grouping.
   Notation sentry := (@sentry X V).
 
   Definition prec_above (e : sentry) (ops : list (item X)) : Prop :=
-    forall i, In i ops -> eprec e < pyprec (ikey i).
+    forall i, List.In i ops -> eprec e < pyprec (ikey i).
 
   Lemma reduce_while_frame : forall p o (S0 : list sentry) e cur,
     eprec e < p ->
@@ -153,8 +156,8 @@ Section Grouping.
   Qed.
 
   Lemma forallb_above : forall (i0 : item X) rest,
-    forallb (fun j => aprec (ikey i0) <? aprec (ikey j)) rest = true ->
-    forall j, In j rest -> pyprec (ikey i0) < pyprec (ikey j).
+    forallb (fun j : item X => aprec (ikey i0) <? aprec (ikey j)) rest = true ->
+    forall j, List.In j rest -> pyprec (ikey i0) < pyprec (ikey j).
   Proof.
     intros i0 rest H j Hj. rewrite forallb_forall in H. specialize (H j Hj).
     rewrite prec_lt_agrees in H. now apply Z.ltb_lt.
@@ -171,8 +174,25 @@ Section Grouping.
     destruct (eprec e =? pyprec (KB o1)) eqn:H2.
     - destruct e as [l o0 c|u]; [|reflexivity].
       apply negb_true_iff in Hcmp. now rewrite Hcmp.
-    - apply Z.gtb_ltb in H1. apply Z.ltb_ge in H1. apply Z.eqb_neq in H2. lia.
+    - rewrite Z.gtb_ltb in H1. apply Z.ltb_ge in H1. apply Z.eqb_neq in H2. lia.
   Qed.
+
+  Lemma py_sy_bin : forall (stk : list sentry) cur o x (rest : list (item X)),
+    py_sy stk cur (IBin o x :: rest) =
+      let '(stk1, cur1, ch) := reduce_while (pyprec (KB o)) o stk cur in py_sy (SBin cur1 o ch :: stk1) (TLeaf x) rest.
+  Proof. reflexivity. Qed.
+  Lemma py_sy_un : forall (stk : list sentry) cur u (rest : list (item X)),
+    py_sy stk cur (IUn u :: rest) = py_sy (SUn u :: stk) cur rest.
+  Proof. reflexivity. Qed.
+  Lemma reduce_nil : forall p o (cur : tree), reduce_while p o [] cur = ([], cur, None).
+  Proof. reflexivity. Qed.
+  Lemma ops_safe_cons2 : forall (i0 i1 : item X) rest,
+    ops_safe (i0 :: i1 :: rest) =
+      (if aprec (ikey i0) >=? aprec (ikey i1)
+       then negb (item_is_cmp i0 && item_is_cmp i1) && negb (item_is_un i1)
+       else forallb (fun j => aprec (ikey i0) <? aprec (ikey j)) (i1 :: rest))
+      && ops_safe (i1 :: rest).
+  Proof. reflexivity. Qed.
 
   Theorem groupings_agree : forall (ops : list (item X)) (acc : tree),
     ops_safe ops = true -> py_tree acc ops = asp_tree acc ops.
@@ -182,28 +202,29 @@ Section Grouping.
     - reflexivity.
     - destruct rest as [|i1 rest'].
       + destruct i0; reflexivity.
-      + cbn [ops_safe] in Hsafe. apply andb_true_iff in Hsafe. destruct Hsafe as [Hhead Hrest].
-        cbn [asp_tree]. destruct (aprec (ikey i0) >=? aprec (ikey i1)) eqn:Hp.
+      + rewrite ops_safe_cons2 in Hsafe. apply andb_true_iff in Hsafe. destruct Hsafe as [Hhead Hrest].
+        rewrite asp_tree_cons2. destruct (aprec (ikey i0) >=? aprec (ikey i1)) eqn:Hp.
         * (* both reduce i0 first *)
           apply andb_true_iff in Hhead. destruct Hhead as [Hcmp Hun].
           destruct i1 as [o1 x1|u1]; [|discriminate].
           rewrite <- (IH (node i0 acc) Hrest).
           rewrite prec_order_agrees in Hp. apply Z.geb_le in Hp.
           destruct i0 as [o x|u].
-          -- cbn [py_sy reduce_while]. cbn [node].
-             change (reduce_while (pyprec (KB o1)) o1 [SBin acc o None] (TLeaf x))
-               with (reduce_while (pyprec (KB o1)) o1 [SBin acc o None] (TLeaf x)).
-             rewrite (reduce_single (SBin acc o None) o1 (TLeaf x)); [reflexivity| cbn [eprec ikey] in *; lia | exact Hcmp].
-          -- cbn [py_sy]. cbn [node].
-             rewrite (reduce_single (SUn u) o1 acc); [reflexivity| cbn [eprec ikey] in *; lia | exact I].
+          -- rewrite py_sy_bin, reduce_nil. rewrite py_sy_bin.
+             rewrite (reduce_single (SBin acc o None) o1 (TLeaf x));
+               [| cbn [eprec ikey] in *; lia | exact Hcmp].
+             rewrite (py_sy_bin [] (node (IBin o x) acc)), reduce_nil. reflexivity.
+          -- rewrite py_sy_un, py_sy_bin.
+             rewrite (reduce_single (SUn u) o1 acc); [| cbn [eprec ikey] in *; lia | exact I].
+             rewrite (py_sy_bin [] (node (IUn u) acc)), reduce_nil. reflexivity.
         * (* i0 takes everything that follows: allowed only when everything that follows binds tighter *)
           pose proof (forallb_above i0 (i1 :: rest') Hhead) as Habove.
           destruct i0 as [o x|u].
-          -- cbn [py_sy reduce_while].
+          -- rewrite py_sy_bin, reduce_nil.
              change [SBin acc o None] with ([] ++ [SBin acc o None]).
              rewrite py_sy_frame by (intros j Hj; cbn [eprec]; now apply Habove).
              cbn [reduce1]. now rewrite IH.
-          -- cbn [py_sy].
+          -- rewrite py_sy_un.
              change [SUn u] with ([] ++ [@SUn X V u]).
              rewrite py_sy_frame by (intros j Hj; cbn [eprec]; now apply Habove).
              cbn [reduce1]. now rewrite IH.
@@ -214,7 +235,18 @@ Section Grouping.
   Proof.
     induction ops as [|i0 rest IH]; intros H; [reflexivity|].
     destruct rest as [|i1 rest']; [reflexivity|].
-    cbn [chain_class] in H. cbn [ops_safe].
+    rewrite ops_safe_cons2.
+    change (chain_class (i0 :: i1 :: rest')) with
+      (if aprec (ikey i0) >=? aprec (ikey i1) then
+          if item_is_cmp i0 && item_is_cmp i1 then Some DCmpNotChained
+          else if item_is_un i1 then Some DPrefixAfterTighter
+          else chain_class (i1 :: rest')
+        else if forallb (fun j => aprec (ikey i0) <? aprec (ikey j)) (i1 :: rest') then chain_class (i1 :: rest')
+        else match i0, i1 with
+             | IUn _, _ => Some DPrefixTakesRest
+             | IBin o _, IUn Neg => Some DNegTakesRest
+             | IBin o _, _ => if alazy (KB o) then Some DLazyDropsTail else Some DRestAsRightOperand
+             end) in H.
     destruct (aprec (ikey i0) >=? aprec (ikey i1)).
     - destruct (item_is_cmp i0 && item_is_cmp i1); [discriminate|].
       destruct (item_is_un i1); [discriminate|]. now rewrite IH.
